@@ -72,6 +72,14 @@ PROPS = {
         "note": "Trusted: Coq kernel; translator's type-switch extraction; modelled library fragments (fmt %v on integers, strconv.ParseInt, plain-decimal ParseFloat, float->int conversion for |x|<2^63) are compared with the real ones on every run but not proved. No axioms.",
         "assumptions": ["values outside the modelled float/decimal fragment (exponent notation, |x|>=2^63, NaN/Inf) are reported as outside the theorem's domain and only checked for totality"],
     },
+    "C16": {
+        "level": "proof",
+        "design_ref": "§6 C16",
+        "technique": "Coq proof that the retrieval models (k-groups, compact, roaring scanner) never panic for any index state and any assignment of arbitrary Go values, over type-switch/kind tables regenerated from the source; exhaustive run of every value shape x field kind x index type against the real code, compared inside Coq",
+        "text": "for every index state and every assignment over the full universe of Go value shapes the model's Retrieve returns a result or an error, never a panic (Coq theorem; the NilInterface kind table and the parsers' type-switch tables are regenerated from the source, so re-adding reflect.Array or dropping a nil guard breaks the proof). Every shape is also run against the real k-groups, compact and roaring indexes on default/pattern/range/number-parser/unknown fields, each hostile retrieval followed by ordinary ones.",
+        "note": "Trusted: Coq kernel; reflect.Value.IsNil's panic set and the translator's table extraction; hand-written model tied to the code by the correspondence run. Termination of the scan loops (fuel suffices) is part of C01/C02's theorems. No axioms.",
+        "assumptions": ["Go values outside the modelled universe are represented by their reflect.Kind class (catch-all constructors)"],
+    },
 }
 
 # properties not claimed (reason); empty when everything is claimed
